@@ -1,7 +1,7 @@
 (* C12 - Read failures are reported, never turned into silently missing rows.
    Property theorems only; proofs are in Proofs/. *)
 From SQ Require Import Model.Base Model.Record Model.Btree Model.Cmp Model.Low
-     Spec.Flat Spec.Deliver Proofs.BtreeP Proofs.DeliverP Proofs.LowP Proofs.FaultP Proofs.ScanP Proofs.FaultMinP.
+     Spec.Flat Spec.Deliver Proofs.BtreeP Proofs.DeliverP Proofs.LowP Proofs.FaultP Proofs.ScanP Proofs.FaultMinP Model.High Proofs.FaultHighP.
 
 (* the traversals deliver the rows up to the first failing page / cell and
    then report that failure: iter = deliver the flattening, where the
@@ -90,3 +90,50 @@ Theorem C12_rowid : forall pg' pg op' op npages, (forall n, le_res (pg' n) (pg n
   forall root rowid, le_res (table_rowid pg' op' npages root rowid) (table_rowid pg op npages root rowid).
 Proof. exact table_rowid_fault. Qed.
 Print Assumptions C12_rowid.
+
+(* ---- the high level API (select.go, indexed_select.go, sqlittle.go) ----
+   For every schema record, table / index name, column list, key and every callback whose state only
+   grows (ext is any preorder on the caller's state; collecting rows is one): run against a pager on
+   which any set of page reads fails, the operation - sqlite_master read, index scan, the nested rowid
+   / primary key lookup per entry, row mapping - equals the fault-free run, or fails having handed the
+   callback a prefix of what the fault-free run hands it.  A row is never skipped, a lookup that fails
+   is never "no such row". *)
+Theorem C12_select : forall pg' pg op' op npages, (forall n, le_res (pg' n) (pg n)) -> (forall n, le_res (op' n) (op n)) ->
+  forall S (ext : S -> S -> Prop), (forall s, ext s s) -> (forall a b c, ext a b -> ext b c -> ext a c) ->
+  forall cb, (forall r, grows S ext (cb r)) -> forall sc table columns s,
+  out_le S ext (h_select pg' op' npages S cb sc table columns s) (h_select pg op npages S cb sc table columns s).
+Proof. exact h_select_fault. Qed.
+Print Assumptions C12_select.
+
+Theorem C12_select_rowid : forall pg' pg op' op npages, (forall n, le_res (pg' n) (pg n)) -> (forall n, le_res (op' n) (op n)) ->
+  forall S (ext : S -> S -> Prop), (forall s, ext s s) ->
+  forall cb, (forall r, grows S ext (cb r)) -> forall sc table rowid columns s,
+  out_le S ext (h_select_rowid pg' op' npages S cb sc table rowid columns s) (h_select_rowid pg op npages S cb sc table rowid columns s).
+Proof. exact h_select_rowid_fault. Qed.
+Print Assumptions C12_select_rowid.
+
+Theorem C12_indexed_select : forall pg' pg op' op npages, (forall n, le_res (pg' n) (pg n)) -> (forall n, le_res (op' n) (op n)) ->
+  forall S (ext : S -> S -> Prop), (forall s, ext s s) -> (forall a b c, ext a b -> ext b c -> ext a c) ->
+  forall cb, (forall r, grows S ext (cb r)) -> forall sc table iname columns s,
+  out_le S ext (h_indexed_select pg' op' npages S cb sc table iname columns s) (h_indexed_select pg op npages S cb sc table iname columns s).
+Proof. exact h_indexed_select_fault. Qed.
+Print Assumptions C12_indexed_select.
+
+Theorem C12_indexed_select_eq : forall pg' pg op' op npages, (forall n, le_res (pg' n) (pg n)) -> (forall n, le_res (op' n) (op n)) ->
+  forall S (ext : S -> S -> Prop), (forall s, ext s s) -> (forall a b c, ext a b -> ext b c -> ext a c) ->
+  forall cb, (forall r, grows S ext (cb r)) -> forall sc table iname k columns s,
+  out_le S ext (h_indexed_select_eq pg' op' npages S cb sc table iname k columns s) (h_indexed_select_eq pg op npages S cb sc table iname k columns s).
+Proof. exact h_indexed_select_eq_fault. Qed.
+Print Assumptions C12_indexed_select_eq.
+
+Theorem C12_pk_select : forall pg' pg op' op npages, (forall n, le_res (pg' n) (pg n)) -> (forall n, le_res (op' n) (op n)) ->
+  forall S (ext : S -> S -> Prop), (forall s, ext s s) -> (forall a b c, ext a b -> ext b c -> ext a c) ->
+  forall cb, (forall r, grows S ext (cb r)) -> forall sc table k columns s,
+  out_le S ext (h_pk_select pg' op' npages S cb sc table k columns s) (h_pk_select pg op npages S cb sc table k columns s).
+Proof. exact h_pk_select_fault. Qed.
+Print Assumptions C12_pk_select.
+
+(* the row collecting callback of the checks grows its state *)
+Theorem C12_row_collector_grows : forall limit (r : row), grows (list row) lext (collect_hrow limit r).
+Proof. exact collect_hrow_grows. Qed.
+Print Assumptions C12_row_collector_grows.
